@@ -1,8 +1,12 @@
 HOOK_COMMITS = ["62c23309"]
-FIX_COMMITS = ["f30b07ca", "4730a169", "b021ba71", "6b5e0bb5"]
+FIX_COMMITS = ["f30b07ca", "4730a169", "b021ba71", "6b5e0bb5", "facba332", "c36040ff"]
 PENDING = "check not built yet (construction in progress, see DESIGN.md section 7); no claim is made"
 NOT_APPLICABLE = {("C%02d" % i): PENDING for i in range(1, 21)}
 CHECKS = {
+ "C10": dict(
+  technique="differential runtime monitoring: DUMP->read->DUMP fixed point, follow-up calculations on original vs text-restored vs storage-bin copy vs serializer copy vs SOLUTION_MODIFY-restored instances (1 case in 6 under ASan+UBSan)",
+  level="seeded rich states (all entity kinds incl. every surface electrostatic model, gas fixed P/V, solid solutions, kinetics, mix/reaction/temperature/pressure, optional isotopes/pressure, optionally already reacted) and generated multi-simulation chains; follow-ups RUN_CELLS over all cells and a reaction step, 60+ result columns compared at 1e-7 (measured noise floors for a few columns)",
+  note="states carry dissolved O2 so that pe is pinned (a floating pe is discontinuous in the 14th digit of total_o); 1 open known finding (isotopes); 2 defects repaired by fix: commits"),
  "C07": dict(
   technique="differential runtime monitoring: history+LoadDatabase vs fresh instance, all output channels of a probe battery compared byte for byte (1 case in 8 under ASan+UBSan)",
   level="seeded histories from a grammar of 25 'dirtiers' (KNOBS, PRINT, SELECTED_OUTPUT/USER_PUNCH/USER_PRINT+PUT, RATES, CALCULATE_VALUES, TRANSPORT options incl. stagnant/multi_d/implicit/interlayer, ADVECTION, INCREMENTAL_REACTIONS, species/phase/master additions, PITZER/SIT/LLNL parameters, isotopes, all reactant kinds, DUMP/DELETE/COPY, other databases, setters) plus one of 8 failing calls; reload via LoadDatabase or LoadDatabaseString of 8 target databases; 9-11 probes (speciation, reaction, both integrators, transport, advection, mix/run_cells, memory/next numbers, dump, inverse, surface/exchange/gas)",
